@@ -15,6 +15,7 @@ import (
 
 	ocispec "github.com/opencontainers/image-spec/specs-go/v1"
 	oras "oras.land/oras-go/v2"
+	"oras.land/oras-go/v2/content"
 	"oras.land/oras-go/v2/content/memory"
 )
 
@@ -325,6 +326,71 @@ func runCopy(mode string, seed int64, tier string, sc *Script) map[string]any {
 		}
 		sc.Extra["exhaustive_single_fault_plans"] = plans
 	}
+	// C04: the same accounting over ExtendedCopyGraph with several roots (a subject with
+	// several referrers, each with blobs of its own): one shared budget of Concurrency
+	if mode == "C04" {
+		reps := 25
+		if tier == "thorough" {
+			reps = 400
+		}
+		for i := 0; i < reps; i++ {
+			u := NewUniverse()
+			cfgB := u.AddBlob(ocispec.MediaTypeImageConfig, []byte(fmt.Sprintf("{\"x\":%d}", i)))
+			base := u.AddBlob(ocispec.MediaTypeImageLayer, []byte(fmt.Sprintf("base-%d", i)))
+			subj := u.AddImage(KOCIManifest, cfgB.ID, []int{base.ID}, -1, "", map[string]string{"s": fmt.Sprint(i)})
+			nref := 2 + rng.Intn(4)
+			for k := 0; k < nref; k++ {
+				var layers []int
+				for b := 0; b < 2+rng.Intn(5); b++ {
+					layers = append(layers, u.AddBlob(ocispec.MediaTypeImageLayer, []byte(fmt.Sprintf("ref-%d-%d-%d", i, k, b))).ID)
+				}
+				u.AddImage(KOCIManifest, cfgB.ID, layers, subj.ID, "application/vnd.verif.ref", map[string]string{"k": fmt.Sprint(k)})
+			}
+			conc := 1 + rng.Intn(3)
+			sc.Case("gauged-extendedcopy")
+			sc.NonTrivial()
+			src := memory.New()
+			all := make([]int, len(u.Nodes))
+			for j := range all {
+				all[j] = j
+			}
+			pushAll(ctx, src, u, all)
+			dstT := memory.New()
+			r := newCopyRun(u, seed+int64(i))
+			r.maxDelay = time.Duration(300+rng.Intn(700)) * time.Microsecond
+			opts := oras.ExtendedCopyGraphOptions{CopyGraphOptions: r.options(conc)}
+			isrc := &instrGraphSrc{instrSrc: instrSrc{inner: src, r: r}, g: src}
+			idst := &instrTarget{instrDst: instrDst{inner: dstT, r: r}, t: dstT}
+			if err := oras.ExtendedCopyGraph(ctx, isrc, idst, subj.Desc, opts); err != nil {
+				panic(fmt.Sprintf("ExtendedCopyGraph: %v", err))
+			}
+			over := "ok"
+			if int(r.maxSrcInFlight) > conc || int(r.maxDstInFl) > conc {
+				over = fmt.Sprintf("over(src=%d,dst=%d,conc=%d)", r.maxSrcInFlight, r.maxDstInFl, conc)
+			}
+			sc.Op(over, "cp gauge conc=%d roots=%d", conc, nref)
+			dup := "ok"
+			for n, c := range r.pushes {
+				if c > 1 {
+					dup = fmt.Sprintf("push-twice(%d)", n)
+				}
+			}
+			for n, c := range r.fetches {
+				if c > 1 {
+					dup = fmt.Sprintf("fetch-twice(%d)", n)
+				}
+			}
+			sc.Op(dup, "cp once")
+			runs++
+			sc.Count("extendedcopy-gauged")
+			if r.maxSrcInFlight > maxSrc {
+				maxSrc = r.maxSrcInFlight
+			}
+			if r.maxDstInFl > maxDst {
+				maxDst = r.maxDstInFl
+			}
+		}
+	}
 	sc.Extra["evaluations"] = runs
 	sc.Extra["traces_validated"] = traces
 	sc.Extra["max_src_in_flight"] = maxSrc
@@ -340,4 +406,14 @@ type srcTarget struct {
 
 func (s *srcTarget) Resolve(ctx context.Context, ref string) (ocispec.Descriptor, error) {
 	return s.t.Resolve(ctx, ref)
+}
+
+// instrGraphSrc adds Predecessors to the instrumented source for ExtendedCopyGraph.
+type instrGraphSrc struct {
+	instrSrc
+	g content.ReadOnlyGraphStorage
+}
+
+func (s *instrGraphSrc) Predecessors(ctx context.Context, d ocispec.Descriptor) ([]ocispec.Descriptor, error) {
+	return s.g.Predecessors(ctx, d)
 }
